@@ -257,3 +257,51 @@ func UpstreamProxyThenTLS(raw *Peer, outer *tls.Config, pick func(authority stri
 	synctest.Wait()
 	return p
 }
+
+// TLSClientThroughTLSProxy is the client of a proxy whose listener is TLS (--protocol https): outer TLS
+// handshake with the proxy, one CONNECT head written inside it, the reply head read octet by octet, then
+// the inner TLS session (cfg) starts inside the outer one. reply is the CONNECT reply head ("" when none
+// arrived); when it is not a 2xx the inner session is not started and the returned peer is nil.
+func TLSClientThroughTLSProxy(raw *Peer, outer *tls.Config, connectHead string, cfg *tls.Config) (p *TLSPeer, reply string, err error) {
+	ot := tls.Client(raw.C, outer)
+	var mu sync.Mutex
+	var head []byte
+	var herr error
+	finished := false
+	go func() {
+		e := ot.Handshake()
+		if e == nil {
+			_, e = ot.Write([]byte(connectHead))
+		}
+		b := make([]byte, 1)
+		for e == nil {
+			var n int
+			n, e = ot.Read(b)
+			mu.Lock()
+			head = append(head, b[:n]...)
+			end := len(head) >= 4 && string(head[len(head)-4:]) == "\r\n\r\n"
+			mu.Unlock()
+			if end {
+				break
+			}
+		}
+		mu.Lock()
+		herr, finished = e, true
+		mu.Unlock()
+	}()
+	synctest.Wait()
+	mu.Lock()
+	reply, err = string(head), herr
+	fin := finished
+	mu.Unlock()
+	if !fin {
+		// the reader is still waiting for the rest of the head: release it
+		raw.C.Close()
+		synctest.Wait()
+		return nil, reply, fmt.Errorf("no complete CONNECT reply from the TLS proxy")
+	}
+	if err != nil || len(reply) < 12 || reply[9] != '2' {
+		return nil, reply, err
+	}
+	return startTLS(tls.Client(ot, cfg), raw), reply, nil
+}
